@@ -47,6 +47,15 @@ func (f *Field) resolve(file *File) error {
 }
 
 func (f *Field) resolved() error {
+	if elem := f.Type.Element; f.Type.Kind == KindList && elem != nil {
+		switch elem.Kind {
+		case KindService:
+			return fmt.Errorf("invalid field %q: service type not allowed", f.Name)
+		case KindAny, KindAnyMessage, KindList:
+			return fmt.Errorf("invalid field %q: lists of %v are not supported", f.Name, elem.Kind)
+		}
+	}
+
 	ref := f.Type.Ref
 	if ref == nil {
 		return nil
